@@ -40,7 +40,7 @@ VARIABLES cfg,    \* configuration (never changes)
           pend,   \* pend[f] = deliveries of f's event still to come (a bag: any order, duplicates, stale ones)
           pc,     \* [f, h, r, st, rep]: the event being handled, role index / name, position, "is a repeated event"
           rbq,    \* files tracked by the metadata ringbuffer (memory of the mirror process)
-          hist,   \* [crashes, down, vanished]
+          hist,   \* [crashes, down, vanished, consumed]
           last    \* the action just taken [a, f]
 
 core == <<cfg, src, dst, pend, pc, rbq, hist>>
@@ -169,7 +169,7 @@ Enter(f, h0, rep, q) ==
 Deliver(f) ==
   /\ pc = Idle /\ ~hist.down /\ pend[f] > 0
   /\ pend' = [pend EXCEPT ![f] = @ - 1]
-  /\ LET e == Enter(f, 1, pend[f] < cfg.maxdeliv, rbq) IN pc' = e.pc /\ rbq' = e.rbq
+  /\ LET e == Enter(f, 1, pend[f] < cfg.maxdeliv /\ f \notin hist.consumed, rbq) IN pc' = e.pc /\ rbq' = e.rbq
   /\ last' = Act("Deliver", f)
   /\ UNCHANGED <<cfg, src, dst, hist>>
 
@@ -211,6 +211,17 @@ VanishNewest(f) ==
   /\ last' = Act("VanishNewest", f)
   /\ UNCHANGED <<cfg, dst, pend, pc>>
 
+\* Somebody downstream takes a mirrored file out of the destination (a second mirror that moves it on, a consumer that
+\* deletes what it has processed) and prunes the directories this empties; the mirror keeps running and has to carry on
+\* in whatever is left of the destination tree
+Consume(f) ==
+  /\ pc = Idle /\ Kind(f) # "pr" /\ dst.final[f] = Full
+  /\ Cardinality(hist.consumed) < cfg.maxvanish
+  /\ dst' = [dst EXCEPT !.final[f] = Absent]
+  /\ hist' = [hist EXCEPT !.consumed = @ \cup {f}]
+  /\ last' = Act("Consume", f)
+  /\ UNCHANGED <<cfg, src, pend, pc, rbq>>
+
 Crash ==       \* the mirror process dies between two operations: its memory and its event queue are gone
   /\ ~hist.down /\ hist.crashes < cfg.maxcrash
   /\ pc' = Idle /\ rbq' = {} /\ pend' = [f \in Files |-> 0]
@@ -231,20 +242,20 @@ MInit(c) ==
   /\ dst = [final |-> [f \in 1..Len(c.kind) |-> Absent], tmp |-> [f \in 1..Len(c.kind) |-> Absent]]
   /\ pend = [f \in 1..Len(c.kind) |-> IF c.sel[f] THEN c.maxdeliv ELSE 0]
   /\ pc = Idle /\ rbq = {}
-  /\ hist = [crashes |-> 0, down |-> FALSE, vanished |-> {}]
+  /\ hist = [crashes |-> 0, down |-> FALSE, vanished |-> {}, consumed |-> {}]
   /\ last = Act("Init", 0)
 
 (***************************************************************************)
 (* Properties                                                              *)
 (***************************************************************************)
 Quiescent == pc = Idle /\ ~hist.down /\ \A f \in Files : pend[f] = 0
-Obliged(f) == Sel(f) /\ f \notin hist.vanished
+Obliged(f) == Sel(f) /\ f \notin hist.vanished /\ f \notin hist.consumed
 
 \* a data file whose move was cut by a crash stays intact under its staging name
 StuckTmp(f) == /\ hist.crashes > 0 /\ cfg.method = "move" /\ Kind(f) = "rf"
                /\ src[f] = Absent /\ dst.tmp[f] = Full
 
-IntactSomewhere(f) == src[f] = Full \/ dst.final[f] = Full \/ dst.tmp[f] = Full
+IntactSomewhere(f) == src[f] = Full \/ dst.final[f] = Full \/ dst.tmp[f] = Full \/ f \in hist.consumed
 
 Fidelity   == Quiescent => \A f \in Files : Obliged(f) => (dst.final[f] = Full \/ StuckTmp(f))
 Staged     == \A f \in Files : dst.final[f] \in {Absent, Full}
@@ -265,7 +276,7 @@ NoLeftovers == (Quiescent /\ hist.crashes = 0 /\ hist.vanished = {}) => \A f \in
 
 \* repeated / late / stale events change nothing; a complete destination file is never touched again
 Idempotent  == [][pc.rep => (src' = src /\ dst' = dst)]_vars
-FinalStable == [][\A f \in Files : dst.final[f] = Full => dst'.final[f] = Full]_vars
+FinalStable == [][\A f \in Files : (dst.final[f] = Full /\ last'.a # "Consume") => dst'.final[f] = Full]_vars
 \* the source is only ever reduced: by the move of a data file, the expiry of an older metadata file, the environment
 SourceOnlyShrinks == [][\A f \in Files : src[f] = Absent => src'[f] = Absent]_vars
 
